@@ -65,7 +65,9 @@ static int cur_id(void)
     return MAINID;
 }
 
-static void send(int from, int to, void *msg) { flight_to = to; flight_msg = msg; if (to != MAINID || 1) caller_of[to] = from; }
+/* the receiver's caller is the coroutine that last (re)activated it - but not one that is on its way out (return,
+ * exit, stop of itself): a later yield could not go back to a finished coroutine */
+static void send(int from, int to, void *msg) { flight_to = to; flight_msg = msg; if (from == MAINID || !finished[from]) caller_of[to] = from; }
 static void arrived(int me, void *ret)
 {
     sym_assert(cur_id() == me, "control resumes in the coroutine that gave it up");
